@@ -750,6 +750,339 @@ theorem run_keys (prog : Prog) : ∀ (t : Option Path) (s : KSt), s.old.roots = 
           simp [subKeysDeepL, registeredL_append, registeredL, registered, List.filterMap_append, keyOf]) hb' hkk
       exact ⟨a1, a2, a3, fun k hk => hkk.mono k (hb'.mono k hk)⟩
 
+theorem mkdirStep_makes (fs : FS) (d : Path) (hd : d ≠ []) (hp : fs.isDir d.dropLast = true) (ha : fs.get d = none) :
+    (mkdirStep fs d).get d = some .dir ∧ ∀ q, q ≠ d → (mkdirStep fs d).get q = fs.get q := by
+  have hpar : fs.get (FS.parent d) = some .dir := by
+    unfold FS.isDir at hp
+    unfold FS.parent
+    cases hg : fs.get d.dropLast with
+    | none => simp [hg] at hp
+    | some e => cases e with
+      | dir => rfl
+      | file c m => simp [hg] at hp
+  have hmk : fs.mkdir d = .ok (fs.set d .dir) := by
+    unfold FS.mkdir
+    simp [hd, hpar, ha]
+  unfold mkdirStep
+  rw [hmk]
+  exact ⟨get_set_self _ _ _ hd, fun q hq => get_set_ne _ _ _ _ hq⟩
+
+theorem isDir_of_get {fs : FS} {d : Path} (h : fs.get d = some .dir) : fs.isDir d = true := by
+  simp [FS.isDir, h]
+
+/-- making the directories `_dirs_to_make` lists, in order, makes every one of them a directory (and keeps the
+    directories that were there) -/
+theorem mkdirs_dirsToMake (vfs : FS) (cf : Path) (bl : List Path) : ∀ (n : Nat) (d : Path) (ds : List Path) (fs : FS),
+    d.length = n → dirsToMake vfs cf bl d = .ok ds → (∀ a, vfs.isDir a = true → fs.isDir a = true) →
+    (∀ x ∈ ds, fs.get x = none) →
+    (mkdirs fs ds).isDir d = true ∧ (∀ x ∈ ds, (mkdirs fs ds).isDir x = true) ∧
+      (∀ q, fs.isDir q = true → (mkdirs fs ds).isDir q = true) := by
+  intro n
+  induction n with
+  | zero =>
+    intro d ds fs hl h _ _
+    have : d = [] := List.length_eq_zero_iff.mp hl
+    subst this
+    rw [dirsToMake] at h
+    simp at h; subst h
+    exact ⟨by simp [mkdirs, FS.isDir, get_nil], (fun x hx => nomatch hx), fun q hq => hq⟩
+  | succ n ih =>
+    intro d ds fs hl h hv habs
+    have hd : d ≠ [] := by intro e; subst e; simp at hl
+    rw [dirsToMake] at h
+    simp only [hd, dite_false] at h
+    by_cases h1 : vfs.isDir d = true
+    · simp only [h1, if_true, Except.ok.injEq] at h
+      subst h
+      exact ⟨hv d h1, (fun x hx => nomatch hx), fun q hq => hq⟩
+    · simp only [h1, Bool.false_eq_true, if_false] at h
+      split at h; · cases h
+      split at h; · cases h
+      split at h; · cases h
+      cases hr : dirsToMake vfs cf bl d.dropLast with
+      | error e => rw [hr] at h; cases h
+      | ok r =>
+        rw [hr] at h
+        simp only [Except.ok.injEq] at h
+        subst h
+        have hrabs : ∀ x ∈ r, fs.get x = none := fun x hx => habs x (List.mem_append_left _ hx)
+        obtain ⟨i1, i2, i3⟩ := ih d.dropLast r fs (by simp [List.length_dropLast, hl]) hr hv hrabs
+        have hstep : mkdirs fs (r ++ [d]) = mkdirStep (mkdirs fs r) d := by simp [mkdirs, List.foldl_append]
+        rw [hstep]
+        have hdr : d ∉ r := by
+          intro hm
+          have := (Backups.dirsToMake_prefix _ _ _ _ _ _ rfl hr d hm).length_le
+          rw [List.length_dropLast] at this
+          have : d.length ≠ 0 := by simpa using hd
+          omega
+        have hda : (mkdirs fs r).get d = none := by
+          rcases Rollback.mkdirs_get_mem r fs d with h' | ⟨hm, _, _⟩
+          · rw [h']; exact habs d (by simp)
+          · exact absurd hm hdr
+        obtain ⟨m1, m2⟩ := mkdirStep_makes (mkdirs fs r) d hd i1 hda
+        refine ⟨isDir_of_get m1, ?_, ?_⟩
+        · intro x hx
+          rcases List.mem_append.mp hx with hx | hx
+          · have hne : x ≠ d := fun e => hdr (e ▸ hx)
+            unfold FS.isDir; rw [m2 x hne]; exact i2 x hx
+          · simp only [List.mem_singleton] at hx; subst hx; exact isDir_of_get m1
+        · intro q hq
+          by_cases hqd : q = d
+          · subst hqd; exact isDir_of_get m1
+          · unfold FS.isDir; rw [m2 q hqd]; exact i3 q hq
+
+theorem visible_isDir (sp : SpecSt) (a : Path) (h : (visible sp).isDir a = true) : sp.fs.isDir a = true := by
+  unfold FS.isDir at h ⊢
+  cases hg : (visible sp).get a with
+  | none => simp [hg] at h
+  | some e =>
+    rw [visible_get_some sp a e hg]
+    rw [hg] at h; exact h
+
+/-- `_dirs_to_make` never lists the cache file -/
+theorem dirsToMake_not_cf (vfs : FS) (cf : Path) (bl : List Path) : ∀ (n : Nat) (d : Path) (ds : List Path),
+    d.length = n → dirsToMake vfs cf bl d = .ok ds → cf ∈ ds → False := by
+  intro n
+  induction n with
+  | zero =>
+    intro d ds hl h hm
+    have : d = [] := List.length_eq_zero_iff.mp hl
+    subst this
+    rw [dirsToMake] at h
+    simp at h; subst h; cases hm
+  | succ n ih =>
+    intro d ds hl h hm
+    have hd : d ≠ [] := by intro e; subst e; simp at hl
+    rw [dirsToMake] at h
+    simp only [hd, dite_false] at h
+    split at h
+    · simp only [Except.ok.injEq] at h; subst h; cases hm
+    · split at h; · cases h
+      split at h; · cases h
+      rename_i hcf
+      split at h; · cases h
+      cases hr : dirsToMake vfs cf bl d.dropLast with
+      | error e => rw [hr] at h; cases h
+      | ok r =>
+        rw [hr] at h
+        simp only [Except.ok.injEq] at h
+        subst h
+        rcases List.mem_append.mp hm with hm | hm
+        · exact ih d.dropLast r (by simp [List.length_dropLast, hl]) hr hm
+        · simp only [List.mem_singleton] at hm; exact hcf hm.symm
+
+/-- directories are never removed, nor turned into something else, by a run in which every call succeeds, and the
+    directories it records as created are directories when it ends -/
+theorem run_dirs_kept (prog : Prog) : ∀ (t : Option Path) (s : KSt), s.old.roots = [] → s.sp.failFiles = [] →
+    s.sp.failSubs = [] → okDeepL (Impl.run prog t s).2.2 = true →
+    Antichain (targetsDeepL (Impl.run prog t s).2.2) →
+    (∀ p ∈ targetsDeepL (Impl.run prog t s).2.2, s.sp.fs.get p = none) →
+    (∀ q, s.sp.fs.isDir q = true → (Impl.run prog t s).2.1.sp.fs.isDir q = true) ∧
+    (∀ d ∈ (Impl.run prog t s).2.1.sp.createdDirs, d ∈ s.sp.createdDirs ∨
+      ((Impl.run prog t s).2.1.sp.fs.isDir d = true ∧ d ≠ s.sp.cacheFile)) := by
+  induction prog with
+  | ret v => intro t s _ _ _ _ _ _; simp only [Impl.run]; split <;> exact ⟨fun q h => h, fun d h => Or.inl h⟩
+  | raise e => intro t s _ _ _ _ _ _; simp only [Impl.run]; exact ⟨fun q h => h, fun d h => Or.inl h⟩
+  | query q k ih =>
+    intro t s h0 h1 h2 hok hanti habs
+    simp only [Impl.run] at hok hanti habs ⊢
+    rw [okDeepL_cons, Bool.and_eq_true] at hok
+    cases hrv : View.recVal s.sp.dirSize (visible s.sp) q with
+    | ok v =>
+      simp only [hrv] at hanti habs
+      rw [targetsDeepL_cons] at hanti habs
+      simp only [targetsDeep, List.nil_append] at hanti habs
+      exact ih _ t s h0 h1 h2 hok.2 hanti habs
+    | error e =>
+      simp only [hrv] at hanti habs
+      rw [targetsDeepL_cons] at hanti habs
+      simp only [targetsDeep, List.nil_append] at hanti habs
+      exact ih _ t s h0 h1 h2 hok.2 hanti habs
+  | write b mt k ih =>
+    intro t s h0 h1 h2 hok hanti habs
+    simp only [Impl.run] at hok hanti habs ⊢
+    cases t with
+    | none => exact ih none s h0 h1 h2 hok hanti habs
+    | some p => exact ih (some p) (liftSp s fun sp => { sp with pending := (p, b, mt.getD sp.clock) :: sp.pending, clock := sp.clock + 1 }) h0 h1 h2 hok hanti habs
+  | buildFile path cmp fname args kwargs body k ihb ihk =>
+    intro t s h0 h1 h2 hok hanti habs
+    cases hsetup : bfSetup s.sp path with
+    | error e =>
+      exfalso
+      have := run_bf_setupfail s t path cmp fname args kwargs body k e hsetup
+      cases hops : (Impl.run (.buildFile path cmp fname args kwargs body k) t s).2.2 with
+      | nil => rw [hops] at this; cases this
+      | cons o os =>
+        rw [hops] at this hok
+        simp only [List.head?_cons, Option.some.injEq] at this
+        subst this
+        simp [okDeepL, okDeep] at hok
+    | ok x =>
+      obtain ⟨sp1, made⟩ := x
+      obtain ⟨hsp1, _, hncf, hnd, hdm, _⟩ := bfSetup_ok_fields s.sp sp1 path made hsetup
+      have hpne : path ≠ [] := by intro e; subst e; simp [FS.isDir, get_nil] at hnd
+      have hlook := lookupFile_empty (afterSetup s sp1 path made) h0 path cmp fname args kwargs made
+      rw [run_bf_miss s t path cmp fname args kwargs body k sp1 made hsetup hlook] at hok hanti habs ⊢
+      simp only at hok hanti habs ⊢
+      have hk1ff : (missStart (afterSetup s sp1 path made) path ⟨fname, some path, args, kwargs⟩).sp.failFiles = [] := by
+        show sp1.failFiles = []; rw [hsp1]; exact h1
+      have hk1fs : (missStart (afterSetup s sp1 path made) path ⟨fname, some path, args, kwargs⟩).sp.failSubs = [] := by
+        show sp1.failSubs = []; rw [hsp1]; exact h2
+      have hkb := run_keeps body (some path) (missStart (afterSetup s sp1 path made) path ⟨fname, some path, args, kwargs⟩) h0 hk1ff hk1fs
+      have hab := run_absent body (some path) (missStart (afterSetup s sp1 path made) path ⟨fname, some path, args, kwargs⟩)
+      have hokr := nested_ok_run body (some path) (missStart (afterSetup s sp1 path made) path ⟨fname, some path, args, kwargs⟩) h0 hk1ff hk1fs
+      have ihb' := ihb (some path) (missStart (afterSetup s sp1 path made) path ⟨fname, some path, args, kwargs⟩) h0 hk1ff hk1fs
+      generalize hout : Impl.run body (some path) (missStart (afterSetup s sp1 path made) path ⟨fname, some path, args, kwargs⟩) = out
+        at hok hanti habs hkb hab hokr ihb' ⊢
+      rw [targetsDeepL_cons, targetsDeep_bfRecord] at hanti habs
+      rw [okDeepL_cons, Bool.and_eq_true] at hok
+      obtain ⟨⟨⟨j, hj⟩, hoksubs⟩, hokrest⟩ := And.intro (okDeep_bfRecord _ _ _ _ _ _ _ _ _ hok.1) hok.2
+      obtain ⟨c, m, _, _, hfinOk⟩ := bfFinish_ok_inv out.2.1.sp path made out.1 j hj
+      have hsub_path : ∀ p ∈ targetsDeepL out.2.2, p ≠ path ∧ ¬ p <+: path ∧ ¬ path <+: p := by
+        intro p hp
+        exact Antichain.ne_of_mem_append hanti.left hp (List.mem_singleton.mpr rfl)
+      have hmade_pre : ∀ d ∈ made, d <+: path := fun d hd =>
+        (Backups.dirsToMake_prefix _ _ _ _ _ _ rfl hdm d hd).trans (List.dropLast_prefix path)
+      have hpath_made : path ∉ made := by
+        intro hm
+        have := Backups.dirsToMake_prefix _ _ _ _ _ _ rfl hdm path hm
+        have hl := this.length_le
+        simp [List.length_dropLast] at hl
+        have : path.length ≠ 0 := by simpa using hpne
+        omega
+      have hnot_made : ∀ p, ¬ p <+: path → p ∉ made := fun p hp hm => hp (hmade_pre p hm)
+      have habs_path : s.sp.fs.get path = none := habs path (by simp)
+      have hk1fs' : sp1.fs = Spec.mkdirs s.sp.fs made := by
+        rw [hsp1]; unfold setupState; simp only
+        have : (Spec.mkdirs s.sp.fs made).get path = none := by
+          rcases Rollback.mkdirs_get_mem made s.sp.fs path with h' | ⟨hm, _, _⟩
+          · rw [h', habs_path]
+          · exact absurd hm hpath_made
+        simp [FS.isFile, this]
+      have habs1 : ∀ p ∈ targetsDeepL out.2.2, (missStart (afterSetup s sp1 path made) path ⟨fname, some path, args, kwargs⟩).sp.fs.get p = none := by
+        intro p hp
+        show sp1.fs.get p = none
+        rw [hsp1]
+        exact setupState_absent _ _ _ _ (hsub_path p hp).1 (hnot_made p (hsub_path p hp).2.1) (habs p (by simp [hp]))
+      have hpath_out : out.2.1.sp.fs.get path = none := by
+        apply hab path h0 hk1ff hk1fs
+        · show sp1.fs.get path = none
+          rw [hk1fs']
+          rcases Rollback.mkdirs_get_mem made s.sp.fs path with h' | ⟨hm, _, _⟩
+          · rw [h', habs_path]
+          · exact absurd hm hpath_made
+        · intro p hp; exact (hsub_path p hp).2.2
+      obtain ⟨hb1, hb2⟩ := ihb' hoksubs hanti.left.left habs1
+      obtain ⟨_, hk2, hk3⟩ := bfFinish_keeps out.2.1.sp path made out.1
+      have hrest_path : ∀ p ∈ targetsDeepL (Impl.run (k (bfFinish out.2.1.sp path made out.1).1) t (withSp out.2.1 (bfFinish out.2.1.sp path made out.1).2)).2.2,
+          p ≠ path ∧ ¬ p <+: path ∧ ¬ path <+: p := by
+        intro p hp
+        have := Antichain.ne_of_mem_append hanti (List.mem_append_right _ (List.mem_singleton.mpr rfl)) hp
+        exact ⟨fun e => this.1 e.symm, this.2.2, this.2.1⟩
+      have hrest_sub : ∀ p ∈ targetsDeepL (Impl.run (k (bfFinish out.2.1.sp path made out.1).1) t (withSp out.2.1 (bfFinish out.2.1.sp path made out.1).2)).2.2,
+          ∀ p' ∈ targetsDeepL out.2.2, ¬ p <+: p' := by
+        intro p hp p' hp'
+        exact (Antichain.ne_of_mem_append hanti (List.mem_append_left _ hp') hp).2.2
+      have habs3 : ∀ p ∈ targetsDeepL (Impl.run (k (bfFinish out.2.1.sp path made out.1).1) t (withSp out.2.1 (bfFinish out.2.1.sp path made out.1).2)).2.2,
+          (withSp out.2.1 (bfFinish out.2.1.sp path made out.1).2).sp.fs.get p = none := by
+        intro p hp
+        apply bfFinish_absent _ _ _ _ _ (hrest_path p hp).1
+        apply hab p h0 hk1ff hk1fs
+        · show sp1.fs.get p = none
+          rw [hsp1]
+          exact setupState_absent _ _ _ _ (hrest_path p hp).1 (hnot_made p (hrest_path p hp).2.1) (habs p (by simp [hp]))
+        · exact hrest_sub p hp
+      obtain ⟨hk1', hk2'⟩ := ihk (bfFinish out.2.1.sp path made out.1).1 t (withSp out.2.1 (bfFinish out.2.1.sp path made out.1).2)
+        (by show out.2.1.old.roots = []; rw [hkb.old]; exact h0)
+        (by show (bfFinish _ path made out.1).2.failFiles = []; rw [hk2]; exact hkb.ff)
+        (by show (bfFinish _ path made out.1).2.failSubs = []; rw [hk3]; exact hkb.fsb) hokrest hanti.right habs3
+      -- the set-up makes the directories
+      have habsm := dirsToMake_absent s.sp _ path.dropLast made rfl hdm
+      obtain ⟨_, g2, g3⟩ := mkdirs_dirsToMake (visible s.sp) s.sp.cacheFile s.sp.inProg _ path.dropLast made s.sp.fs rfl hdm
+        (fun a ha => visible_isDir s.sp a ha) habsm
+      have hfinDir : ∀ q, out.2.1.sp.fs.isDir q = true → (withSp out.2.1 (bfFinish out.2.1.sp path made out.1).2).sp.fs.isDir q = true := by
+        intro q hq
+        show (bfFinish _ path made out.1).2.fs.isDir q = true
+        rw [hfinOk]
+        show (out.2.1.sp.fs.set path (.file c m)).isDir q = true
+        have hne : q ≠ path := by
+          intro e; subst e
+          simp [FS.isDir, hpath_out] at hq
+        unfold FS.isDir; rw [get_set_ne _ _ _ _ hne]; exact hq
+      have hcf1 : (missStart (afterSetup s sp1 path made) path ⟨fname, some path, args, kwargs⟩).sp.cacheFile = s.sp.cacheFile := by
+        show sp1.cacheFile = _; rw [hsp1]; rfl
+      have hcf3 : (withSp out.2.1 (bfFinish out.2.1.sp path made out.1).2).sp.cacheFile = s.sp.cacheFile := by
+        show (bfFinish _ path made out.1).2.cacheFile = _
+        rw [hfinOk]; show out.2.1.sp.cacheFile = _
+        rw [(hokr hoksubs).cacheFile]; exact hcf1
+      refine ⟨?_, ?_⟩
+      · intro q hq
+        apply hk1'; apply hfinDir; apply hb1
+        show sp1.fs.isDir q = true
+        rw [hk1fs']; exact g3 q hq
+      · intro d hd
+        rcases hk2' d hd with h' | ⟨h', h''⟩
+        · -- recorded by this call: one of `made`, or recorded during the function
+          have : d ∈ made ++ out.2.1.sp.createdDirs := by
+            have : (withSp out.2.1 (bfFinish out.2.1.sp path made out.1).2).sp.createdDirs = made ++ out.2.1.sp.createdDirs := by
+              show (bfFinish _ path made out.1).2.createdDirs = _; rw [hfinOk]; rfl
+            rw [← this]; exact h'
+          rcases List.mem_append.mp this with hm | hm
+          · right
+            refine ⟨?_, ?_⟩
+            · apply hk1'; apply hfinDir; apply hb1
+              show sp1.fs.isDir d = true
+              rw [hk1fs']; exact g2 d hm
+            · -- `_dirs_to_make` refuses the cache file
+              intro e
+              subst e
+              have hpre := Backups.dirsToMake_prefix _ _ _ _ _ _ rfl hdm _ hm
+              exact dirsToMake_not_cf _ _ _ _ _ _ rfl hdm hm
+          · rcases hb2 d hm with h3 | ⟨h3, h4⟩
+            · left
+              have : (missStart (afterSetup s sp1 path made) path ⟨fname, some path, args, kwargs⟩).sp.createdDirs = s.sp.createdDirs := by
+                show sp1.createdDirs = _; rw [hsp1]; rfl
+              rw [← this]; exact h3
+            · right
+              exact ⟨hk1' d (hfinDir d h3), by rw [← hcf1]; exact h4⟩
+        · right; exact ⟨h', by rw [← hcf3]; exact h''⟩
+  | subbuild fname args kwargs body k ihb ihk =>
+    intro t s h0 h1 h2 hok hanti habs
+    have hfs : s.sp.failSubs.any (heq (subKey fname args kwargs)) = false := by simp [h2]
+    by_cases hcl : s.sp.claimedSubs.any (heq (subKey fname args kwargs)) = true
+    · exfalso
+      simp only [Impl.run, hcl, if_true] at hok
+      simp [okDeepL, okDeep] at hok
+    · have hcl0 : s.sp.claimedSubs.any (heq (subKey fname args kwargs)) = false := by simpa using hcl
+      have hlook := lookupSub_empty (subClaim s (subKey fname args kwargs)) h0 fname args kwargs
+      rw [run_sb_miss' s t fname args kwargs body k hcl0 hfs hlook] at hok hanti habs ⊢
+      simp only at hok hanti habs ⊢
+      have hkb := run_keeps body none (Impl.subStart (subClaim s (subKey fname args kwargs)) ⟨fname, none, args, kwargs⟩) h0 h1 h2
+      have hab := run_absent body none (Impl.subStart (subClaim s (subKey fname args kwargs)) ⟨fname, none, args, kwargs⟩)
+      have hokr := nested_ok_run body none (Impl.subStart (subClaim s (subKey fname args kwargs)) ⟨fname, none, args, kwargs⟩) h0 h1 h2
+      have ihb' := ihb none (Impl.subStart (subClaim s (subKey fname args kwargs)) ⟨fname, none, args, kwargs⟩) h0 h1 h2
+      generalize hout : Impl.run body none (Impl.subStart (subClaim s (subKey fname args kwargs)) ⟨fname, none, args, kwargs⟩) = out
+        at hok hanti habs hkb hab hokr ihb' ⊢
+      rw [targetsDeepL_cons, targetsDeep_sbRecord] at hanti habs
+      rw [okDeepL_cons, Bool.and_eq_true] at hok
+      obtain ⟨_, hoksubs⟩ := okDeep_sbRecord _ _ _ _ _ hok.1
+      obtain ⟨hb1, hb2⟩ := ihb' hoksubs hanti.left (fun p hp => habs p (by simp [hp]))
+      have hrest_sub : ∀ p ∈ targetsDeepL (Impl.run (k out.1) t out.2.1).2.2, ∀ p' ∈ targetsDeepL out.2.2, ¬ p <+: p' := by
+        intro p hp p' hp'
+        exact (Antichain.ne_of_mem_append hanti hp' hp).2.2
+      have habs3 : ∀ p ∈ targetsDeepL (Impl.run (k out.1) t out.2.1).2.2, out.2.1.sp.fs.get p = none := by
+        intro p hp
+        exact hab p h0 h1 h2 (habs p (by simp [hp])) (hrest_sub p hp)
+      obtain ⟨hk1', hk2'⟩ := ihk out.1 t out.2.1 (by rw [hkb.old]; exact h0) hkb.ff hkb.fsb hok.2 hanti.right habs3
+      have hcf2 : out.2.1.sp.cacheFile = s.sp.cacheFile := (hokr hoksubs).cacheFile
+      refine ⟨fun q hq => hk1' q (hb1 q hq), ?_⟩
+      intro d hd
+      rcases hk2' d hd with h' | ⟨h', h''⟩
+      · rcases hb2 d h' with h3 | ⟨h3, h4⟩
+        · exact Or.inl h3
+        · exact Or.inr ⟨hk1' d h3, h4⟩
+      · exact Or.inr ⟨h', by rw [← hcf2]; exact h''⟩
+
 theorem okTop_of_okDeep (o : Op) (h : okDeep o = true) : okTop o = true := by
   cases o with
   | simple _ _ _ _ => rfl
@@ -780,7 +1113,7 @@ theorem C05_nested_rebuild (w : KWorld) (cf : Path) (name : String) (versions : 
     (hok : okDeepL ops = true) (hanti : Antichain (targetsDeepL ops))
     (hargs : ∀ o ∈ ops, argsRefl o = true)
     (hfresh : ∀ k, (k ∈ s2.sp.claimedFiles ∨ k ∈ s2.sp.createdDirs ∨ k ∈ cds ∨ k = cf) → w.fs.get k = none)
-    (hdirs : ∀ d, (d ∈ s2.sp.createdDirs ∨ d ∈ cds) → s2.sp.fs.isDir d = true ∧ d ≠ cf)
+    (hcdsT : ∀ d ∈ cds, d ∉ targetsDeepL ops)
     (hver : ∀ f, isEqual (verOf versions f) (verOf versions f) = true) :
     (Impl.build w cf name versions prog).res = .ok v ∧
     (Impl.build (Impl.build w cf name versions prog).world cf name versions prog).res = .ok v ∧
@@ -801,6 +1134,31 @@ theorem C05_nested_rebuild (w : KWorld) (cf : Path) (name : String) (versions : 
   rw [hr1] at hokrun
   have hkeeps := run_keeps prog none _ hold0 rfl rfl
   rw [hr1] at hkeeps
+  -- the directories the first build records are directories when it ends (derived, not assumed)
+  have hcdsDir := mkdirs_dirsToMake (visible (Impl.buildStart w cf versions [] [] (noRec name versions) []).sp) cf [] _ cf.dropLast cds w.fs rfl hcds
+    (fun a ha => by
+      have := visible_isDir _ a ha
+      rw [buildStart_noRec_fs w cf name versions [] hnocache] at this
+      exact this)
+    (fun x hx => hfresh x (Or.inr (Or.inr (Or.inl hx))))
+  have habs0 : ∀ p ∈ targetsDeepL ops, (Impl.buildStart w cf versions [] [] (noRec name versions) cds).sp.fs.get p = none := by
+    intro p hp
+    rw [hs1fs]
+    obtain ⟨_, hcl, _⟩ := hfacts.outs p hp
+    rcases Rollback.mkdirs_get_mem cds w.fs p with h' | ⟨hm, _, _⟩
+    · rw [h']; exact hfresh p (Or.inl hcl)
+    · exact absurd hp (hcdsT p hm)
+  have hkept := run_dirs_kept prog none _ hold0 rfl rfl (by rw [hr2]; exact hok) (by rw [hr2]; exact hanti) (by rw [hr2]; exact habs0)
+  rw [hr1] at hkept
+  have hdirs : ∀ d, (d ∈ s2.sp.createdDirs ∨ d ∈ cds) → s2.sp.fs.isDir d = true ∧ d ≠ cf := by
+    intro d hd
+    rcases hd with hd | hd
+    · rcases hkept.2 d hd with h' | h'
+      · cases h'
+      · exact h'
+    · refine ⟨hkept.1 d (by rw [hs1fs]; exact hcdsDir.2.1 d hd), ?_⟩
+      intro e; subst e
+      exact dirsToMake_not_cf _ _ _ _ _ _ rfl hcds hd
   -- the world it leaves
   rw [hb1, hgo1]
   refine ⟨rfl, ?_⟩
@@ -921,15 +1279,7 @@ theorem C05_nested_rebuild (w : KWorld) (cf : Path) (name : String) (versions : 
     (by rw [hr2]; exact hok)
     (by rw [hr2]; exact fun o ho => ⟨hcached o ho (okTop_of_okDeep o (okDeep_of_mem ops hok o ho)), hargs o ho⟩)
     (by rw [hr2]; exact hanti)
-    (by
-      rw [hr2, hs1fs]
-      intro p hp
-      obtain ⟨⟨c, m, hg⟩, hcl, _⟩ := hfacts.outs p hp
-      rcases Rollback.mkdirs_get_mem cds w.fs p with h' | ⟨hm, _, _⟩
-      · rw [h']; exact hfresh p (Or.inl hcl)
-      · exfalso
-        have := (hdirs p (Or.inr hm)).1
-        simp [FS.isDir, hg] at this)
+    (by rw [hr2]; exact habs0)
     (by rw [hr1]; exact FirstKeeps.refl s2 hkeeps.ff hkeeps.fsb)
     (by
       rw [hr2]
@@ -984,10 +1334,7 @@ example : (Impl.build fxW ["c"] "n" [] nRoot).res = .ok .null ∧
         · simp at h
         · rw [h]; simp
       simp [fxW, FS.get, hkne])
-    (by
-      intro d hd
-      rw [hcd] at hd
-      simp at hd)
+    (by intro d hd; cases hd)
     (by intro f; simp [verOf, isEqual])
 
 end FB
